@@ -127,7 +127,7 @@ func init() {
 						return "assignments belong to different branches", false
 					}
 				}
-				if gate == nil || gate.Else == nil || len(classes) != 2 || gate.End() > at.Pos() {
+				if gate == nil || gate.Else == nil || len(classes) != 2 || endOf(gate) > startOf(at) {
 					return "no if/else assigning the name on both arms before the store", false
 				}
 				if classes[0] != classes[1] {
